@@ -192,7 +192,7 @@ func checkC12(e *RunEnv) *CheckResult {
 	var rerun []Violation
 	var rerunDone bool
 	res.Rejudge = func(v *Violation) []Violation {
-		if v.Case != nil {
+		if v.Case != nil || v.Oracle == "no-fatal" {
 			// the harness is deterministic: one complete second run confirms every in-module violation
 			if !rerunDone {
 				rerun, rerunDone = runH(), true
